@@ -207,12 +207,12 @@ class EnvSpec:
                 wheel_range = parse_version_specifier(f"=={major}.{minor}.*")
             else:
                 wheel_range = parse_version_specifier(f"=={major}.*")
+            if (wheel_range & self.requires_python).is_empty():
+                return None
+            return (int(major), int(minor or 0), 0 if abi_impl == "none" else 2)
         except ValueError:
             # InvalidSpecifier, or a python tag whose version part is not numeric
             return None
-        if (wheel_range & self.requires_python).is_empty():
-            return None
-        return (int(major), int(minor or 0), 0 if abi_impl == "none" else 2)
 
     def _evaluate_platform(self, platform_tag: str) -> int | None:
         if self.platform is None:
